@@ -202,4 +202,56 @@ theorem runFrom_append (c : Cfg) (d : List (Entry V)) (a b : List (Op V)) :
   | nil => rfl
   | cons op ops ih => exact ih _
 
+/-! ### one-step facts for users of the cache as a black box (C08: `SoundCache`) -/
+
+/-- a hit returns the value of an entry held under that key -/
+theorem step_get_some (c : Cfg) (d : List (Entry V)) (k : String) (now : Time) (v : V)
+    (h : (step c d (.get k now)).2 = .got (some v)) : ∃ e ∈ d, e.key = k ∧ e.val = v := by
+  simp only [step] at h
+  cases hl : lookup k d with
+  | none => simp [hl] at h
+  | some e =>
+    obtain ⟨he, hk⟩ := lookup_some hl
+    simp only [hl] at h
+    split at h
+    · cases h
+    · simp only [Out.got.injEq, Option.some.injEq] at h
+      exact ⟨e, he, hk, h⟩
+
+/-- an entry held after a call was held before it, or the call is the `set` that stored it -/
+theorem step_mem (c : Cfg) (d : List (Entry V)) (op : Op V) (e : Entry V) (h : e ∈ (step c d op).1) :
+    e ∈ d ∨ ∃ ttl now1 now2, op = .set e.key e.val ttl now1 now2 := by
+  cases op with
+  | get k now =>
+    simp only [step] at h
+    cases hl : lookup k d with
+    | none => simp only [hl] at h; exact Or.inl h
+    | some e0 =>
+      simp only [hl] at h
+      split at h
+      · exact Or.inl (mem_remove.mp h).1
+      · simp only [List.mem_append, List.mem_singleton] at h
+        rcases h with h | rfl
+        · exact Or.inl (mem_remove.mp h).1
+        · exact Or.inl (lookup_some hl).1
+  | set k v ttl now1 now2 =>
+    simp only [step] at h
+    split at h
+    · cases h
+    · have h1 := ((purge_sublist _ _ _).trans (evictLoop_sublist _ _)).subset h
+      simp only [inserted, List.mem_append, List.mem_singleton] at h1
+      rcases h1 with h1 | rfl
+      · exact Or.inl (mem_remove.mp h1).1
+      · exact Or.inr ⟨ttl, now1, now2, rfl⟩
+  | delete k => exact Or.inl (mem_remove.mp h).1
+  | clear => cases h
+
+/-- `clear` empties the cache -/
+theorem step_clear (c : Cfg) (d : List (Entry V)) : (step c d .clear).1 = [] := rfl
+
+/-- the capacity loop pops exactly `capVictims`, from the least recently used end -/
+theorem capVictims_append (c : Cfg) (d : List (Entry V)) (k : String) (v : V) (ttl : Option Int) (now1 now2 : Time) :
+    capVictims c d (.set k v ttl now1 now2) ++ evictLoop c.maxsize (inserted d k v ttl now1) = inserted d k v ttl now1 := by
+  simp only [capVictims, evictLoop_eq_drop, List.take_append_drop]
+
 end Rbacx.Cache
